@@ -56,6 +56,7 @@ def has_call(e, *names):
 
 def run(ctx):
     helpers.run_for(ctx)
+    prune.check_loop_exhaustive(ctx, 'C13.R6', 'Tree::depth_stats', '#all-nodes', 'nodes after that point do not enter the statistics')
     helpers.share_arena_contracts(ctx, 'C13.R11', failing_paths=True)
     prune.check_wrappers(ctx, 'C13.R6', WRAPPERS)
     F = ctx.facts
